@@ -48,6 +48,8 @@ type Node struct {
 	Opts  NodeOpts
 	Alloc *memory.Allocator
 	ballast []*[]byte
+	heavyFirst []*[]byte
+	heavy   []*[]byte // bulk filling of two size classes (freed again before a defragmentation)
 	ParseTillLeft bool // the client's start-up replay ended without reaching its goal (the client keeps the network on hold then)
 }
 
@@ -290,6 +292,30 @@ func (n *Node) Ballast(rng interface {
 	}
 	addr := func(b *[]byte) uintptr { return uintptr(unsafe.Pointer(unsafe.SliceData((*b)[:1]))) }
 	const page = 1 << 20
+	// the two record sizes the node's set uses most (rounded up to the next multiple of eight)
+	hot := map[int]bool{}
+	if all {
+		cnt := map[int]int{}
+		db := n.Ch.Unspent
+		for i := range db.HashMap {
+			for _, v := range db.HashMap[i] {
+				if l := (len(*v) + 7) &^ 7; l >= 48 && l <= 400 {
+					cnt[l]++
+				}
+			}
+		}
+		for k := 0; k < 2; k++ {
+			best := 0
+			for l, c := range cnt {
+				if !hot[l] && (best == 0 || c > cnt[best] || (c == cnt[best] && l < best)) {
+					best = l
+				}
+			}
+			if best != 0 {
+				hot[best] = true
+			}
+		}
+	}
 	for sz := 48; sz <= 400; sz += 8 {
 		if !all && !rng.Chance(0.35) {
 			continue
@@ -327,20 +353,62 @@ func (n *Node) Ballast(rng interface {
 			mine[j] = mine[len(mine)-1]
 			mine = mine[:len(mine)-1]
 		}
-		n.ballast = append(n.ballast, mine...)
 		classes++
+		if !hot[sz] {
+			n.ballast = append(n.ballast, mine...)
+		} else {
+			n.heavyFirst = append(n.heavyFirst, mine...) // (freed entirely: the node's own page becomes the sparsest)
+			// two much-used classes get fourteen more pages, so that a later DefragMem (which first frees most of
+			// this) finds more than twelve pages' worth of free slots and really moves records
+			per := int((page - 64) / slot)
+			for i := 0; i < 14*per; i++ {
+				n.heavy = append(n.heavy, a.Malloc(sz))
+			}
+		}
 	}
 	return classes
 }
 
 // DefragMem is client/common.DefragUTXOMem: compact the allocator's pages, telling the UTXO map where records moved.
-func (n *Node) DefragMem() int {
+func (n *Node) DefragMem(rng interface{ Intn(int) int }) (moved, movedNode int) {
 	if n.Alloc == nil {
-		return 0
+		return 0, 0
 	}
-	return n.Alloc.DefragAllImproved(func(oldRec, newRec *[]byte) {
+	// churn: most of the bulk filling goes away (a few per page stay, so that the pages are sparse, not empty)
+	for _, b := range n.heavyFirst {
+		n.Alloc.Free(b)
+	}
+	n.heavyFirst = nil
+	keep := n.heavy[:0]
+	for _, b := range n.heavy {
+		if rng.Intn(100) < 6 {
+			keep = append(keep, b)
+		} else {
+			n.Alloc.Free(b)
+		}
+	}
+	n.heavy = keep
+	mine := map[*[]byte]int{}
+	for i, b := range n.heavy {
+		mine[b] = i
+	}
+	for i, b := range n.ballast {
+		mine[b] = -1 - i
+	}
+	moved = n.Alloc.DefragAllImproved(func(oldRec, newRec *[]byte) {
+		if i, ok := mine[oldRec]; ok {
+			// the harness's own filling: just follow it (in the client every allocation belongs to the UTXO set)
+			if i >= 0 {
+				n.heavy[i] = newRec
+			} else {
+				n.ballast[-1-i] = newRec
+			}
+			return
+		}
+		movedNode++
 		n.Ch.Unspent.Relocate(oldRec, newRec)
 	})
+	return
 }
 
 // Header makes the node learn a block by its header only, the way a `headers` message does
@@ -394,6 +462,13 @@ func (n *Node) Close() {
 			for _, b := range n.ballast {
 				n.Alloc.Free(b)
 			}
+			for _, b := range n.heavy {
+				n.Alloc.Free(b)
+			}
+			for _, b := range n.heavyFirst {
+				n.Alloc.Free(b)
+			}
+			n.heavy, n.heavyFirst = nil, nil
 		})
 		n.ballast = nil
 	}
